@@ -6,6 +6,7 @@ import Driver.Oracle
 import Driver.OpsJws
 import Driver.OpsClaims
 import Driver.OpsKeys
+import Driver.OpsJwe
 /-!
 Line-protocol driver: one request per line on stdin, one answer per line on stdout.
 `<op> <args…>`; bytes are hex (`-` = empty).  Unknown or malformed requests answer `bad-op`.
@@ -28,6 +29,9 @@ def handle (allToks : List String) : String :=
   | some r => r
   | none =>
   match handleKeys toks tbl with
+  | some r => r
+  | none =>
+  match handleJwe toks tbl with
   | some r => r
   | none => "bad-op"
 
